@@ -1267,7 +1267,9 @@ async fn c13_run(seq: &[WOp], with_pred: bool, r: &mut Report) {
     let mut p_version = 0u64;
     let mut self_writes = 0u64;
     // warm-up (not part of the case text): P and Q become live
-    let mut ops: Vec<WOp> = vec![WOp::Tick, WOp::Tick, WOp::Tick, WOp::Eval];
+    // (it starts with an evaluation of the freshly built, isolated node: the channel must be right
+    // before anybody else is known, whether or not the constructor pre-seeds it)
+    let mut ops: Vec<WOp> = vec![WOp::Eval, WOp::Tick, WOp::Tick, WOp::Tick, WOp::Eval];
     ops.extend_from_slice(seq);
     for (i, op) in ops.iter().enumerate() {
         match *op {
@@ -1337,7 +1339,7 @@ async fn c13_run(seq: &[WOp], with_pred: bool, r: &mut Report) {
             }
             WOp::Eval => {
                 n.update_nodes_liveness();
-                let when = format!("after op #{} (Eval; warm-up is ops 0..3)", i);
+                let when = format!("after op #{} (Eval; warm-up is ops 0..4)", i);
                 let published_now = rx.has_changed().unwrap_or(false);
                 let watch_val: BTreeMap<ChitchatId, NodeState> = rx.borrow_and_update().clone();
                 let live: Vec<ChitchatId> = n.live_nodes().cloned().collect();
@@ -1374,9 +1376,9 @@ async fn c13_run(seq: &[WOp], with_pred: bool, r: &mut Report) {
                             r.fail("change-not-published", format!("{when}: live members / max versions changed from {:?} to {:?} but no new value was published", prev.values().collect::<Vec<_>>(), now_seen.values().collect::<Vec<_>>()), case.clone());
                         }
                     }
-                } else if !published_now {
-                    r.fail("first-evaluation-not-published", format!("{when}: nothing published by the first evaluation"), case.clone());
                 }
+                // (nothing is demanded of the very first evaluation beyond the content check above: a
+                // constructor may legitimately pre-seed the channel with the right value)
                 seen = Some(now_seen);
             }
         }
@@ -1388,7 +1390,7 @@ async fn verif_c13_watch() {
     let len = if tier_thorough() { 6 } else { 5 };
     let mut r = Report::new(
         "c13_watch",
-        &format!("local node + members P, Q made live by 3 fresh heartbeats 1 s apart; every sequence of up to {len} operations over {{Tick (clock +1 s, fresh heartbeats of P and Q), Silence (clock +60 s), silence for everybody but P / but Q, two fresh heartbeats 1 s apart of P / Q / a third member R, P's copy learns ready=1 / ready expiring (TTL) / ready deleted / another key, an ACK resetting P's copy to a lower max version, local write, key GC pass (grace 1 s), Eval}} ending in Eval, with no extra predicate and with the predicate 'has key ready'; after every Eval the watch value is compared with the live members satisfying the predicate and their current max versions, and a changed (live set, max versions) must have been published; plus seeded sequences of length 14"),
+        &format!("the freshly built local node is evaluated alone, then members P, Q are made live by 3 fresh heartbeats 1 s apart; every sequence of up to {len} operations over {{Tick (clock +1 s, fresh heartbeats of P and Q), Silence (clock +60 s), silence for everybody but P / but Q, two fresh heartbeats 1 s apart of P / Q / a third member R, P's copy learns ready=1 / ready expiring (TTL) / ready deleted / another key, an ACK resetting P's copy to a lower max version, local write, key GC pass (grace 1 s), Eval}} ending in Eval, with no extra predicate and with the predicate 'has key ready'; after every Eval the watch value is compared with the live members satisfying the predicate and their current max versions, and a changed (live set, max versions) must have been published; plus seeded sequences of length 14"),
         true,
     );
     let alpha = [
